@@ -227,6 +227,9 @@ func judgeC07(cs c07Case) (string, string) {
 	}
 	plain := twin.Buf.Bytes()
 	ce := rec.Result().Get("Content-Encoding")
+	if vs := rec.Result().Values("Content-Encoding"); len(vs) > 1 && !cs.Nested {
+		return fmt.Sprintf("the response carries %d Content-Encoding values %q", len(vs), vs), ""
+	}
 	raw := rec.Buf.Bytes()
 	same := func(got []byte) bool {
 		if cs.Kind == "panic-pre" || cs.Kind == "panic-mid" {
